@@ -276,6 +276,17 @@ func init() {
 				add(fmt.Sprintf("quietproducer/at%d/genfail", at), bad, k1, w2)
 			}
 		}
+		// 1d. writer errors of particular kinds (a closed pipe, EPIPE, a bare io.EOF): whatever the error is, the call ends
+		for _, fl := range []string{"closed-pipe", "epipe", "eof"} {
+			for _, op := range []string{"out-text", "out-dry", "out-json"} {
+				d := NewDrv(op, ok3)
+				d.WriterFailAt, d.ErrFlavour = 1, fl
+				add(fmt.Sprintf("writerkind/%s/%s", fl, op), d, k1, w2)
+			}
+		}
+		// 1e. heading roots (the parser keeps a flag for them): two heading documents, all stages
+		add("sharp2/out-text", NewDrv("out-text", "# a\n- b\n# c\n- d\n"), k1, w2)
+		add("sharp2/walk", NewDrv("walk", "# a\n- b\n# c\n- d\n# e\n"), k1, w3)
 		// 2. generator-stage failures: every non-empty subset of 3 roots has an empty item
 		for mask := 1; mask < 8; mask++ {
 			doc := ""
